@@ -2016,6 +2016,8 @@ class StreamToQueue(StreamResult):
         """Adjust route_code on the way through."""
         if route_code is None:
             return self.routing_code
+        if self.routing_code is None:
+            return route_code
         return self.routing_code + "/" + route_code
 
 
